@@ -67,7 +67,7 @@ async fn run_storm(a: &Args, m: &mut mon::Mon) {
         let seed = subseed(a, world_no);
         let mut r = storm::rng(seed);
         use rand::Rng;
-        let cfg = storm::StormCfg { n_banks: r.gen_range(3..=6), n_users: r.gen_range(3..=6), program_fees: r.gen_bool(0.6), magnitude: storm::pick(&mut r, &[0u8, 1, 1, 1, 2]), with_staked: a.prop == "C16" && r.gen_bool(0.6), n_isolated: 1, emode: r.gen_bool(0.3), n_kamino: 0 };
+        let cfg = storm::StormCfg { n_banks: r.gen_range(3..=6), n_users: r.gen_range(3..=6), program_fees: r.gen_bool(0.6), magnitude: storm::pick(&mut r, &[0u8, 1, 1, 1, 2]), with_staked: a.prop == "C16" && r.gen_bool(0.6), n_isolated: 1, emode: r.gen_bool(0.3), n_venue: 0 };
         let (mut w, mut s) = storm::Storm::build(seed, cfg).await;
         let steps = if a.tier == "thorough" { 6000 } else { 1500 };
         for k in 0..steps {
@@ -110,7 +110,7 @@ async fn run_scen(a: &Args, m: &mut mon::Mon) {
         let seed = subseed(a, world_no);
         let mut r = storm::rng(seed);
         let c04 = a.prop == "C04";
-        let cfg = storm::StormCfg { n_banks: if c04 { r.gen_range(5..=8) } else { r.gen_range(3..=5) }, n_users: 2, program_fees: r.gen_bool(0.6), magnitude: 1, with_staked: false, n_isolated: if c04 { 2 } else { 1 }, emode: c04 || r.gen_bool(0.3), n_kamino: 0 };
+        let cfg = storm::StormCfg { n_banks: if c04 { r.gen_range(5..=8) } else { r.gen_range(3..=5) }, n_users: 2, program_fees: r.gen_bool(0.6), magnitude: 1, with_staked: false, n_isolated: if c04 { 2 } else { 1 }, emode: c04 || r.gen_bool(0.3), n_venue: 0 };
         let (mut w, mut s) = storm::Storm::build(seed, cfg).await;
         let g = s.g;
         let lq = s.liquidator;
@@ -198,7 +198,7 @@ async fn run_admin(a: &Args, m: &mut mon::Mon) {
     while t0.elapsed() < a.budget {
         let seed = subseed(a, world_no);
         let mut r = storm::rng(seed);
-        let cfg = storm::StormCfg { n_banks: r.gen_range(3..=5), n_users: 3, program_fees: r.gen_bool(0.7), magnitude: 1, with_staked: false, n_isolated: 1, emode: false, n_kamino: 0 };
+        let cfg = storm::StormCfg { n_banks: r.gen_range(3..=5), n_users: 3, program_fees: r.gen_bool(0.7), magnitude: 1, with_staked: false, n_isolated: 1, emode: false, n_venue: 0 };
         let (mut w, mut s) = storm::Storm::build(seed, cfg).await;
         let g = s.g;
         let mut ad = admin::Admin { g, emint: None, steps: 0 };
@@ -264,11 +264,11 @@ async fn run_venue(a: &Args, m: &mut mon::Mon) {
     while t0.elapsed() < a.budget {
         let seed = subseed(a, world_no);
         let mut r = storm::rng(seed);
-        let cfg = storm::StormCfg { n_banks: r.gen_range(2..=3), n_users: 3, program_fees: r.gen_bool(0.5), magnitude: storm::pick(&mut r, &[0u8, 1, 1, 1]), with_staked: false, n_isolated: 0, emode: false, n_kamino: storm::pick(&mut r, &[2usize, 4, 10, 10]) };
+        let cfg = storm::StormCfg { n_banks: r.gen_range(2..=3), n_users: 3, program_fees: r.gen_bool(0.5), magnitude: storm::pick(&mut r, &[0u8, 1, 1, 1]), with_staked: false, n_isolated: 0, emode: false, n_venue: storm::pick(&mut r, &[2usize, 4, 10, 10]) };
         let (mut w, mut s) = storm::Storm::build(seed, cfg).await;
         let g = s.g;
         let lq = s.liquidator;
-        let kbanks: Vec<usize> = (0..w.banks.len()).filter(|b| w.banks[*b].kamino.is_some()).collect();
+        let kbanks: Vec<usize> = (0..w.banks.len()).filter(|b| w.banks[*b].venue.is_some()).collect();
         let rounds = if a.tier == "thorough" { 60 } else { 16 };
         for _ in 0..rounds {
             if t0.elapsed() >= a.budget {
@@ -278,6 +278,7 @@ async fn run_venue(a: &Args, m: &mut mon::Mon) {
                 s.step(&mut w, m).await;
             }
             venue::KAMINO_FAULT.store(0, std::sync::atomic::Ordering::Relaxed);
+            venue::SOLEND_FAULT.store(0, std::sync::atomic::Ordering::Relaxed);
             w.venue_autorefresh = true;
             w.refresh_oracles();
             match r.gen_range(0..4) {
@@ -292,7 +293,7 @@ async fn run_venue(a: &Args, m: &mut mon::Mon) {
                     let mut accepted = 0u64;
                     for b in order {
                         let ta = w.ta_of(acct, b);
-                        let i = w.ix_kamino_deposit(acct, b, auth.pubkey(), ta, storm::pick(&mut r, &[1000u64, 1_000_000, 5]));
+                        let i = w.ix_venue_deposit(acct, b, auth.pubkey(), ta, storm::pick(&mut r, &[1000u64, 1_000_000, 5]));
                         if w.exec(m, &[i], &[&auth]).await.ok() {
                             accepted += 1;
                         }
@@ -315,9 +316,9 @@ async fn run_venue(a: &Args, m: &mut mon::Mon) {
                         let t_before = w.token(&ta);
                         let base = storm::pick(&mut r, &[1000u64, 1_000_000, 1 << 30]);
                         let amt = storm::amount_near(&mut r, base).min(t_before);
-                        let i = w.ix_kamino_deposit(acct, b, auth.pubkey(), ta, amt);
+                        let i = w.ix_venue_deposit(acct, b, auth.pubkey(), ta, amt);
                         if amt > 0 && w.exec(m, &[i], &[&auth]).await.ok() {
-                            let i = w.ix_kamino_withdraw(acct, b, auth.pubkey(), ta, 0, Some(true));
+                            let i = w.ix_venue_withdraw(acct, b, auth.pubkey(), ta, 0, Some(true));
                             if w.exec(m, &[i], &[&auth]).await.ok() {
                                 let t_after = w.token(&ta);
                                 m.r.eval();
@@ -334,7 +335,7 @@ async fn run_venue(a: &Args, m: &mut mon::Mon) {
                     // venue collateral backing a loan: borrow boundary with a fresh reserve, then
                     // with a reserve that was not refreshed in the current slot
                     let cands: Vec<usize> = kbanks.iter().cloned().filter(|b| scen::usable_collateral_any(&w, *b)).collect();
-                    let dbs: Vec<usize> = (0..w.banks.len()).filter(|b| w.banks[*b].kamino.is_none() && w.bank(*b).config.operational_state == marginfi_type_crate::types::BankOperationalState::Operational).collect();
+                    let dbs: Vec<usize> = (0..w.banks.len()).filter(|b| w.banks[*b].venue.is_none() && w.bank(*b).config.operational_state == marginfi_type_crate::types::BankOperationalState::Operational).collect();
                     if cands.is_empty() || dbs.is_empty() {
                         continue;
                     }
@@ -348,7 +349,7 @@ async fn run_venue(a: &Args, m: &mut mon::Mon) {
                         let ta = w.ta_of(lev.acct, ca);
                         let hi = s.position(&w, lev.acct, ca).0;
                         let acct = lev.acct;
-                        if let Some(x) = scen::bisect_max(&mut w, m, &[&auth], hi, |w, x| vec![w.ix_kamino_withdraw(acct, ca, ak, ta, x, None)]).await {
+                        if let Some(x) = scen::bisect_max(&mut w, m, &[&auth], hi, |w, x| vec![w.ix_venue_withdraw(acct, ca, ak, ta, x, None)]).await {
                             m.r.count("venue.withdraw_boundary_found");
                             let _ = x;
                         }
@@ -361,7 +362,7 @@ async fn run_venue(a: &Args, m: &mut mon::Mon) {
                         let i = w.ix_borrow(acct, db, ak, tb, 1);
                         let o = w.probe(m, &[i], &[&auth]).await;
                         m.r.count(if o.ok() { "venue.stale_reserve_borrow_accepted" } else { "venue.stale_reserve_borrow_rejected" });
-                        let i = w.ix_kamino_withdraw(acct, ca, ak, ta, 1, None);
+                        let i = w.ix_venue_withdraw(acct, ca, ak, ta, 1, None);
                         let o = w.probe(m, &[i], &[&auth]).await;
                         m.r.count(if o.ok() { "venue.stale_reserve_withdraw_accepted" } else { "venue.stale_reserve_withdraw_rejected" });
                         w.venue_autorefresh = true;
@@ -376,7 +377,8 @@ async fn run_venue(a: &Args, m: &mut mon::Mon) {
         m.r.add("storm.steps", s.steps);
         m.r.add("storm.accepted_transactions", s.accepted);
         m.r.add("storm.worlds", 1);
-        m.r.add("venue.kamino_standin_calls", venue::KAMINO_CALLS.load(std::sync::atomic::Ordering::Relaxed));
+        m.r.add("venue.kamino_standin_calls", venue::KAMINO_CALLS.swap(0, std::sync::atomic::Ordering::Relaxed));
+        m.r.add("venue.solend_standin_calls", venue::SOLEND_CALLS.swap(0, std::sync::atomic::Ordering::Relaxed));
         world_no += 1;
     }
 }
